@@ -40,7 +40,10 @@ throw_libdwfl (int dwerr = 0)
 {
   if (dwerr == 0)
     dwerr = dwfl_errno ();
-  assert (dwerr != 0);
+  // libdwfl can fail without leaving an error code behind as well, e.g.
+  // when reading a member of an archive fails.
+  if (dwerr == 0)
+    throw std::runtime_error ("libdwfl failure (no detail given)");
   throw std::runtime_error (dwfl_errmsg (dwerr));
 }
 
